@@ -1206,27 +1206,34 @@ fn main() {
     ));
     run_work(w, &mut rep);
 
-    // ---- 4. the shipped LPT1 device (F15) ------------------------------------------------------------
+    // ---- 4. the shipped LPT1 device (F15, repaired) -------------------------------------------------
+    // The shipped interpreter has no printer to write to. LPRINT must then either deliver the text or raise a
+    // BASIC device error the program can trap (Device I/O error, 57) -- never abort the interpreter.
     rep.case(Some("default-device LPRINT".into()));
     rep.bump("lprint.default-device");
     let shipped = std::panic::catch_unwind(|| {
         let (igr, udt) = compile("LPRINT \"x\";").ok().expect("LPRINT compiles");
         let mut interpreter = rusty_basic::interpreter::new_default_interpreter(udt);
-        interpreter.interpret(igr).map_err(|e| format!("{:?}", e))
+        let r = interpreter.interpret(igr).map_err(|e| format!("{:?}", e));
+        (r, interpreter.get_last_error_code())
     });
-    match shipped {
-        Ok(Ok(())) => {}
-        other => rep.fail(Failure {
+    let acceptable = match &shipped {
+        Ok((Ok(()), _)) => true,
+        Ok((Err(e), _)) => e.contains("DeviceIOError"),
+        Err(_) => false,
+    };
+    if !acceptable {
+        rep.fail(Failure {
             kind: Kind::ImplVsProperty,
             signature: "lprint:default-device".into(),
             input: "LPRINT \"x\";   (new_default_interpreter: WritePrinter<Lpt1Write>)".into(),
-            implementation: match other {
-                Err(_) => "panic (lpt1_write.rs: unimplemented!())".to_owned(),
+            implementation: match shipped {
+                Err(_) => "panic".to_owned(),
                 Ok(r) => format!("{:?}", r),
             },
-            expected: "the text reaches the printer device".into(),
+            expected: "the text reaches the printer device, or Device I/O error (57)".into(),
             note: "the in-memory hook substitutes a byte buffer for LPT1, so the column rules are checked above".into(),
-        }),
+        });
     }
 
     // ---- 5. negative zero ----------------------------------------------------------------------------
